@@ -275,6 +275,9 @@ func (e *Engine) findModel(fn *ssa.Function) modelFn {
 	if m, ok := models[name]; ok {
 		return m
 	}
+	if m := e.findModelGeneric(fn); m != nil {
+		return m
+	}
 	// methods of a logging.Logger implementation: never modelled here (harness supplies no-op logger)
 	return nil
 }
@@ -293,6 +296,9 @@ func (e *Engine) tryModel(st *State, fn *ssa.Function, args []Value, _ func(*Sta
 
 // invokeSpecial handles interface method calls on engine-internal dynamic types.
 func (e *Engine) invokeSpecial(st *State, recv IfaceV, method string) (Value, bool) {
+	if recv.typ == ctxTokT {
+		return e.ctxMethod(st, method)
+	}
 	if recv.typ == e.opaqueErrT {
 		switch method {
 		case "Error":
